@@ -23,8 +23,8 @@ fn case_variant(s: &str, variant: u64) -> String {
     }
 }
 
-struct Lex { feats: Vec<Vec<String>>, aliases: Vec<(String, String)> }
-fn load_lex() -> Lex {
+pub struct Lex { feats: Vec<Vec<String>>, aliases: Vec<(String, String)> }
+pub fn load_lex() -> Lex {
     let path = std::env::var("VERIF_LEXICON").unwrap_or("/verif/spec/frozen/lexicon.json".into());
     let j: Value = serde_json::from_str(&std::fs::read_to_string(path).expect("lexicon.json")).unwrap();
     Lex { feats: j["features"].as_array().unwrap().iter().map(|c| c["spellings"].as_array().unwrap().iter().map(|s| s.as_str().unwrap().to_string()).collect()).collect(),
@@ -32,7 +32,7 @@ fn load_lex() -> Lex {
 }
 
 /// a respelling of a rule text, chosen by `sp`: every token with documented synonyms may be replaced
-fn respell_rule(text: &str, sp: u64, lex: &Lex) -> String {
+pub fn respell_rule(text: &str, sp: u64, lex: &Lex) -> String {
     let mut rng = Rng::new(sp);
     let mut out = String::new();
     // alpha letters and variable numbers are renamed consistently
